@@ -1,4 +1,5 @@
 """C09 — per-module source registry as keyed set (DESIGN §4 C09, A.6)."""
+import re
 import lm
 import rules
 from lm import S, strip, cval, walk
@@ -217,6 +218,25 @@ def run(ck, P):
     uses = [u for u in uses if int(u.rsplit(" ", 1)[1]) not in val_lines]
     ck.ob("C09.4-COUNTS", sl.site("type selects"), bool(uses), "`%s` is %s" % (tp, "used by: %s" % uses[:4] if uses else
                                                                               "range-validated and then ignored: every call returns the total over all kinds"))
+    # every counting site must be selected by the type argument (or a local derived from it) on every path that reaches it
+    derived = {tp}
+    for d in sl.events():
+        if d.kind in ("decl", "assign") and d.rhs is not None and d.lhs is not None and strip(d.lhs)["k"] == "var" \
+                and any(n.get("k") == "var" and n.get("name") in derived for n in walk(d.rhs)):
+            derived.add(S(d.lhs))
+    cnt = [e for e in sl.events() if (e.kind == "incdec" and e.e["op"] == "++" and S(e.lhs) == "len") or (e.kind == "assign" and S(e.lhs) == "len" and e.e["op"] == "+=")]
+    unsel = None
+    cd = sl.control_deps()
+    for e in cnt:
+        ctrl = cd.get(e.block.id, set())
+        sel = [bb for bb in ctrl if bb not in guard_blocks and sl.blocks[bb].term and sl.blocks[bb].term.get("cond") is not None and
+               any(n.get("k") == "var" and n.get("name") in derived for n in walk(sl.blocks[bb].term["cond"]))]
+        if not sel:
+            unsel = (e, None)
+    ck.ob("C09.4-COUNTS", sl.site("every count selected by type"), unsel is None and bool(cnt),
+          "%d counting site(s), each control dependent on a test of `%s`" % (len(cnt), tp) if unsel is None else
+          "count at line %d is not control dependent on any test involving `%s`: that kind is counted whatever type was asked" % (unsel[0].line, tp),
+          path=None)
     incs = [e for e in sl.events() if e.kind == "incdec" and e.e["op"] == "++" and S(e.lhs) == "len"] + \
            [e for e in sl.events() if e.kind == "assign" and S(e.lhs) == "len" and e.e["op"] == "+="]
     oki = bool(incs) and all(any(a.endswith("->flags & 128)") and p is False for (a, p) in X.facts(sl, e)) for e in incs)
